@@ -146,6 +146,11 @@ def spellings_ufunc(task):
     if mode == "plain":
         sp["mg"] = lambda ops, ex: mgf(*ops, **kw, **ex)
         sp["np"] = lambda ops, ex: npf(*ops, **kw, **ex)
+        if task.get("mg_only_kw") and fn == "absolute":
+            del sp["np"]          # NumPy's own ufunc refuses the keyword before it dispatches
+            sp["mg_abs"] = lambda ops, ex: mg.abs(*ops, **kw, **ex)
+            if "out" in task:
+                sp["mg_out_tuple"] = lambda ops, ex: mgf(*ops, **kw, **{k: ((v,) if k == "out" else v) for k, v in ex.items()})
         plain = not kw and not any(k in task for k in ("out", "where", "dtype"))
         if plain and n == 2 and fn in BINOPS:
             sp["operator"] = lambda ops, ex: BINOPS[fn](*ops)
@@ -164,7 +169,11 @@ def spellings_ufunc(task):
             sp["pow1"] = lambda ops, ex: ops[0] ** 1
     else:   # x <op>= y  /  f(x, y, out=x)
         sp["mg_out"] = lambda ops, ex: mgf(*ops, **kw, out=ops[0])
-        sp["np_out"] = lambda ops, ex: npf(*ops, **kw, out=ops[0])
+        if task.get("mg_only_kw"):
+            sp["mg_abs_out"] = lambda ops, ex: mg.abs(*ops, **kw, out=ops[0])
+            sp["mg_out_tuple"] = lambda ops, ex: mgf(*ops, **kw, out=(ops[0],))
+        else:
+            sp["np_out"] = lambda ops, ex: npf(*ops, **kw, out=ops[0])
         if n == 2 and fn in IBINOPS and not kw:
             sp["augmented"] = lambda ops, ex: IBINOPS[fn](ops[0], ops[1])
             if all(o.get("dtype", "float64") == "float64" for o in task["operands"]):
